@@ -104,3 +104,8 @@ claim('C15',
       'variant-level closure computed from dispatch tables: Prod(X) of each Serializer method, Wire(.) from the encoder/decoder tag flow with the encoder\'s width thresholds (established by interval analysis), Acc(X) of each Deserializer method; constant agreement of atoms; enum-variant shape table; CAST/PANIC over de.rs',
       'Decided from MIR for the 15 primitive kinds of the serde data model and the compound serialisers: every OwnedTerm variant the serialiser builds for X is accepted by deserialize_X, and so is every variant that term turns into after encode+decode (wide integers -> BigInt, String -> Binary, empty List -> Nil); the atoms for bool / None / unit agree between ser.rs and de.rs in the built configuration; the four enum-variant shapes produced are accepted by deserialize_enum. Not decided: value equality, map-key collisions, the derive macro (see DESIGN).',
       NOTE, 'DESIGN.md §4 C15')
+
+claim('C20',
+      'constant agreement of keys and struct names between the to-term and from-term side of each wrapper, CAST over every from_term, validating-constructor (who-may-construct) rule, overflow PANIC family over range.rs, wire closure of 64-bit fields, sibling table of the proplist helpers',
+      'Decided from MIR for the 18 wrapper types with a to-term / from-term pair: every atom key and the struct module name written are the ones from_term reads; no term field is narrowed with an unguarded cast; wrappers that have a validating constructor build their from_term result through it; length, membership and size-hint arithmetic of ranges cannot overflow (128-bit, guarded division); the proplist helpers and the serde proplist access handle the same element shapes. Reported as a known finding: 64-bit range bounds are read back with as_integer(), which does not see big integers. Not decided: agreement of len/contains/iteration as arithmetic, proplist<->map losslessness as value-level statements, the derive macro.',
+      NOTE, 'DESIGN.md §4 C20')
